@@ -24,10 +24,11 @@ pub fn tokens_of(s: &Sentence) -> Result<Vec<Tok>, String> {
     guard(|| {
         let mut out = vec![];
         let mut n = 0;
+        let cap = s.as_raw_text().len() + 10_000;
         let mut it = s.iter_tokens();
         while let Some(t) = it.next() {
             n += 1;
-            if n > 10_000 {
+            if n > cap {
                 panic!("token iterator does not terminate");
             }
             let surface = t.surface().to_string();
